@@ -1,5 +1,7 @@
 #![allow(clippy::all)]
 #![allow(deprecated)]
+pub mod ctstep;
+pub mod digest;
 pub mod exec;
 pub mod harness;
 pub mod genr;
